@@ -185,7 +185,13 @@ def mk_member(name, params, brief, pdocs=False):
         ET.SubElement(p, "type").text = "int"
         if pname is not None:
             ET.SubElement(p, "declname").text = pname
-        if has_default:
+        if has_default == "ref":                    # Doxygen cross-references a default that starts with a documented symbol
+            dv = ET.SubElement(p, "defval")
+            r = ET.SubElement(dv, "ref", {"refid": "classns_1_1Model", "kindref": "compound"})
+            r.text, r.tail = "ns::Model::Create", "(3)"
+        elif has_default == "empty":
+            ET.SubElement(p, "defval")
+        elif has_default:
             ET.SubElement(p, "defval").text = "0"
     b = ET.SubElement(md, "briefdescription")
     if brief is not None:
@@ -223,10 +229,10 @@ def c17_overloads(shape: int, q: int, sym: str) -> bool:
     1-3 member definitions with 0-3 parameters (some defaulted, one name symbolic), queried with the argument
     names of each declared overload in turn: the returned text is the brief of the matching member(s), in
     document order when indistinguishable, '' when none matches; never an exception.
-    pre: 0 <= shape < 15 and 0 <= q < 4 and pipe.is_ident(sym, 1, 3) and sym not in POOLN
+    pre: 0 <= shape < 17 and 0 <= q < 4 and pipe.is_ident(sym, 1, 3) and sym not in POOLN
     post: _
     """
-    shape, q = pick(shape, 0, 15), pick(q, 0, 4)
+    shape, q = pick(shape, 0, 17), pick(q, 0, 4)
     SH = [
         [([("key", False), ("value", False)], "kv"), ([("value", False), ("key", False)], "vk")],
         [([("key", False)], "one"), ([("key", False), ("value", True)], "two")],
@@ -243,6 +249,8 @@ def c17_overloads(shape: int, q: int, sym: str) -> bool:
         [([("key", False)], "k"), ([("x", False), ("key", True)], "x-optkey")],                      # another overload's optional parameter has the queried name
         [([("key", False), ("value", False)], "kv"), ([("x", False), ("key", False), ("value", True)], "xk-optv"), ([("x", False), ("value", True)], "x-optv")],
         [([(sym, False)], "s"), ([("key", False), (sym, True)], "k-opts"), ([("value", False), ("x", True), (sym, True)], "v-optx-opts")],
+        [([("key", False), ("value", "ref")], "k-refv")],                                          # default value = cross-referenced symbol
+        [([("key", False), ("value", "ref"), ("x", "empty")], "k-refv-emptyx"), ([("x", "ref")], "refx")],
     ][shape]
     QUERIES = [["key", "value"], ["key"], [], ["value", "key"], [sym], ["key", sym], ["x"], ["value"], ["key", "value", "x"], ["key", "x", "value"], ["value", sym], [sym, "x", "value"]]
     xp = XMLDocParser()
@@ -430,8 +438,8 @@ def conds(tier):
                 bounds="all texts of length <= %d over all Unicode scalar values" % (2 if q else 3)),
         xh.Cond(M, "c17_escape_class", t(300, 1800), examples=["cls=0, cp=7, nxt=11", "cls=2, cp=160, nxt=10", "cls=6, cp=128512, nxt=22", "cls=1, cp=92, nxt=23"],
                 bounds="7 code-point classes x symbolic code point in the class x %d following characters (hex digits, quote, backslash, ?, other)" % len(FOLLOW)),
-        xh.Cond(M, "c17_overloads", t(300, 1800), examples=["shape=0, q=0, sym='id'", "shape=4, q=1, sym='id'", "shape=9, q=0, sym='zz'", "shape=12, q=0, sym='a'", "shape=13, q=2, sym='a'", "shape=14, q=1, sym='b'"],
-                bounds="15 member-definition shapes (with per-parameter documentation) x 12 queries x symbolic parameter name (len <= 3)"),
+        xh.Cond(M, "c17_overloads", t(300, 1800), examples=["shape=0, q=0, sym='id'", "shape=4, q=1, sym='id'", "shape=9, q=0, sym='zz'", "shape=12, q=0, sym='a'", "shape=13, q=2, sym='a'", "shape=14, q=1, sym='b'", "shape=15, q=0, sym='a'", "shape=16, q=2, sym='a'"],
+                bounds="17 member-definition shapes (with per-parameter documentation; default values as text, as a cross-reference element, empty) x 12 queries x symbolic parameter name (len <= 3)"),
         xh.Cond(M, "c17_xml_folder", t(120, 600), kind="shape-bounded", examples=["kind=0, pos=0, target=0", "kind=1, pos=2, target=0", "kind=2, pos=3, target=2", "kind=3, pos=1, target=1"],
                 bounds="real XML folder: 4 compound kinds x 4 positions in index.xml x 4 class-name forms, with decoy compounds"),
         xh.Cond(M, "c17_partial_xml", t(120, 600), kind="shape-bounded", examples=["shape=1", "shape=5"], bounds="6 partial-XML shapes"),
